@@ -78,6 +78,11 @@ func main() {
 	// ---- F11 (fixed): undefined regdef inside an unused regdef
 	add("C14", "F11", "fixed", "95fb0a7", "undefined regular definition referenced only from an unused regular definition was accepted: _a : _undef ; t : 'x' ;",
 		camp.Witness{Kind: "c14", Text: "_a : _undef ;\nt : 'x' ;\n", Strs: []string{"undef-regdef", "uses an undefined regular definition"}})
+	// ---- F15 (fixed): unclosed block comment swallowed the rest of the file
+	add("C14", "F15", "fixed", "18e50e2", "an unclosed /* comment swallowed the rest of the grammar file and gocc exited 0",
+		camp.Witness{Kind: "c14", Text: "S : \"a\" B ;\nB : \"b\" ;\n/* tail : never closed\nC : \"c\" ;\n", Strs: []string{"ins", "token sequence is not a sentence of spec/gocc2.ebnf"}})
+	add("C14", "F15-b", "fixed", "18e50e2", "a file ending in /* or /*/ was accepted",
+		camp.Witness{Kind: "c14", Text: "t : 'a' ;\nS : t ;\n/*/", Strs: []string{"ins", "token sequence is not a sentence of spec/gocc2.ebnf"}})
 	// ---- F12 (fixed): duplicate alternatives merged
 	f12 := &Grammar{NTs: []*NTDef{{Head: "S", Alts: []SAlt{{Body: []Sym{tk("c")}}, {Body: []Sym{tk("k"), nt("S"), st("*")}}, {Body: []Sym{tk("k"), nt("S"), st("*")}}}}}}
 	add("C04", "F12", "fixed", "ba2fbdb", "two alternatives with the same body were merged into one LR(1) item, so their reduce/reduce conflict was never announced: S : c | k S \"*\" | k S \"*\" ;",
